@@ -1,6 +1,7 @@
 SPECIFICATION Spec
 CONSTANTS
   MaxLen = 5
+  NulHeaderCheck = TRUE
   PreambleArmorCheck = FALSE
 INVARIANT Conforms
 INVARIANT BodyOnly
